@@ -24,6 +24,18 @@ def run(ctx):
         ctx.add_violations(mine, tf)
         swept += s2["ops"]
         events += r2["lines"]
+    # legacy locales with combining marks (those the character set has, and those it lacks): nothing but the
+    # character set's own bytes may be written - no substitution byte, no UTF-8
+    for k, cs in enumerate(["ISO8859-1", "US-ASCII", "ISO8859-6"] if q else ["ISO8859-1", "US-ASCII", "ISO8859-6", "ISO8859-9", "KOI8-R", "EUC-JP"]):
+        tf = ctx.work + "/legacy_%s.ndjson" % cs
+        s3, _ = ctx.run_vh(["screen", "--charset", cs, "--mix", "legacy", "--terms", "xterm-256color,vt100,linux", "--random", 3 if q else 20,
+                            "--ops", 30, "--seed", ctx.seed + 100 + k, "--out", tf], timeout=3000)
+        r3 = ctx.validate_parallel("TScreenTrace", tf, parts=4 if q else 8, expect_events=s3.get("events"), timeout=3400)
+        mine = [d for d in r3["devs"] if d["tag"].startswith("C09.")]
+        for d in mine:
+            d["charset"] = cs
+        ctx.add_violations(mine, tf)
+        events += r3["lines"]
     ctx.cov["code_point_cells_swept"] = swept
     ctx.cov["events_validated"] += events
     ctx.cov["exhaustive"] = not q
@@ -35,4 +47,4 @@ def run(ctx):
                     "surrogates, negative and > 0x10FFFF; a 1/7 sample above U+3000 in the quick tier) through SetContent "
                     "(incl. the last column) and Fill, and every 257th (quick) / every (thorough) other code point with an "
                     "agreed width through SetContent, under UTF-8 and one (quick) / two (thorough) 8-bit locales; every written block is lexed by "
-                    "Term.tla and the display compared")
+                    "Term.tla and the display compared; plus random legacy-locale histories with combining marks")
